@@ -64,8 +64,10 @@ func (fr *Frame) call(c *ssa.CallCommon, instr ssa.Instruction, st *State, reach
 		short := c.Method.Name()
 		fr.calls[short] = fr.callOrd[instr]
 		if fr.fc != nil {
-			for _, ca := range fr.fc.CallAssert {
+			for ci := range fr.fc.CallAssert {
+				ca := &fr.fc.CallAssert[ci]
 				if ca.Callee == short && ca.K == fr.calls[short] {
+					ca.Matched = true
 					pos := token.NoPos
 					if fr.curInstr != nil {
 						pos = fr.curInstr.Pos()
@@ -78,10 +80,15 @@ func (fr *Frame) call(c *ssa.CallCommon, instr ssa.Instruction, st *State, reach
 				}
 			}
 		}
+		var res Val
 		if fc != nil {
-			return fr.applyContract(name, sig, nil, fc, cf, append([]Val{recv}, args...), st, reach, true)
+			res = fr.applyContract(name, sig, nil, fc, cf, append([]Val{recv}, args...), st, reach, true)
+		} else {
+			res = fr.havocCall(name, sig, st)
 		}
-		return fr.havocCall(name, sig, st)
+		fr.assumeNotPrivateSentinel(res, sig, reach)
+		fr.assumeAfter(short, fr.calls[short], res, st, reach)
+		return res
 	}
 	if b, ok := c.Value.(*ssa.Builtin); ok {
 		return fr.builtin(b, c, instr, st, reach)
@@ -190,8 +197,10 @@ func (fr *Frame) callStatic(callee *ssa.Function, bindings []Val, args []Val, st
 	}
 	// caller-side assertions at this call site
 	if fr.fc != nil {
-		for _, ca := range fr.fc.CallAssert {
+		for ci := range fr.fc.CallAssert {
+			ca := &fr.fc.CallAssert[ci]
 			if ca.Callee == short && ca.K == k {
+				ca.Matched = true
 				pos := token.NoPos
 				if fr.curInstr != nil {
 					pos = fr.curInstr.Pos()
@@ -217,32 +226,19 @@ func (fr *Frame) callStatic(callee *ssa.Function, bindings []Val, args []Val, st
 	switch {
 	case fc != nil && !inline:
 		res = fr.applyContract(fmt.Sprintf("%s@%d", short, k), callee.Signature, callee, fc, cf, args, st, reach, false)
+		if name == "errors.New" || name == "fmt.Errorf" {
+			// a freshly made error value is none of the package-level error variables
+			if fv, ok := res.(*FV); ok && len(fv.L) == 2 {
+				n := len(vc.prog.errGlobals)
+				vc.sc.Assume(mkImplies(reach, mkNot(mkAnd(mkEq(fv.L[0], intLit64(1000000)), app(SBool, ">=", fv.L[1], intLit64(1000001)), app(SBool, "<=", fv.L[1], intLit64(int64(1000000+n)))))), name+" returns a new error value, distinct from every package-level error variable")
+			}
+		}
 	case inline:
 		res = fr.inlineCall(callee, fc, cf, bindings, args, st, reach, fmt.Sprintf("%s@%d.", short, k))
 	default:
 		res = fr.havocCall(name, callee.Signature, st)
 	}
-	if fr.fc != nil {
-		for _, ca := range fr.fc.CallAssume {
-			if ca.Callee == short && ca.K == k {
-				pos := token.NoPos
-				if fr.curInstr != nil {
-					pos = fr.curInstr.Pos()
-				}
-				env := fr.specEnvAt(st, fmt.Sprintf("assume@after %s#%d", short, k), pos)
-				if res != nil {
-					env.vars["result"] = res
-					if tv, ok := res.(*TV); ok {
-						for i, e := range tv.E {
-							env.vars[fmt.Sprintf("result%d", i)] = e
-						}
-						env.vars["result"] = tv.E[0]
-					}
-				}
-				vc.sc.Assume(mkImplies(reach, env.Bool(ca.C.Expr)), fmt.Sprintf("assumed after %s#%d: %s", short, k, ca.C.Src))
-			}
-		}
-	}
+	fr.assumeAfter(short, k, res, st, reach)
 	return res
 }
 
@@ -918,4 +914,83 @@ func (fr *Frame) curReachOrTrue() Term {
 		return tTrue
 	}
 	return fr.curReach
+}
+
+
+// assumeAfter applies the "assume@after callee#k e" directives of the current
+// function to the k-th call of callee (result, result0, result1, .. name the
+// call's results). Every use is listed in the evidence as an assumption.
+func (fr *Frame) assumeAfter(short string, k int, res Val, st *State, reach Term) {
+	vc := fr.vc
+	if fr.fc == nil {
+		return
+	}
+	for i := range fr.fc.CallAssume {
+		ca := &fr.fc.CallAssume[i]
+		if ca.Callee != short || ca.K != k {
+			continue
+		}
+		ca.Matched = true
+		pos := token.NoPos
+		if fr.curInstr != nil {
+			pos = fr.curInstr.Pos()
+		}
+		env := fr.specEnvAt(st, fmt.Sprintf("assume@after %s#%d", short, k), pos)
+		if res != nil {
+			env.vars["result"] = res
+			if tv, ok := res.(*TV); ok {
+				for i, e := range tv.E {
+					env.vars[fmt.Sprintf("result%d", i)] = e
+				}
+				env.vars["result"] = tv.E[0]
+			}
+		}
+		vc.sc.Assume(mkImplies(reach, env.Bool(ca.C.Expr)), fmt.Sprintf("assumed after %s#%d: %s", short, k, ca.C.Src))
+	}
+}
+
+
+// assumeNotPrivateSentinel: an error returned through an interface (code outside
+// the package under verification) is none of this package's unexported sentinel
+// error values: external code cannot name them. (Assumption, listed in the
+// trusted base: the package does not hand its private sentinels to such code.)
+func (fr *Frame) assumeNotPrivateSentinel(res Val, sig *types.Signature, reach Term) {
+	vc := fr.vc
+	if res == nil || fr.fn == nil || fr.fn.Pkg == nil {
+		return
+	}
+	pkg := fr.fn.Pkg.Pkg.Name()
+	var ids []int
+	for name, id := range vc.prog.errGlobals {
+		pn, vn, _ := strings.Cut(name, ".")
+		if pn == pkg && !ast.IsExported(vn) {
+			ids = append(ids, id)
+		}
+	}
+	if len(ids) == 0 {
+		return
+	}
+	sort.Ints(ids)
+	one := func(v Val, t types.Type) {
+		fv, ok := v.(*FV)
+		if !ok || len(fv.L) != 2 || types.TypeString(t, nil) != "error" {
+			return
+		}
+		var cs []Term
+		for _, id := range ids {
+			cs = append(cs, mkNot(mkAnd(mkEq(fv.L[0], intLit64(1000000)), mkEq(fv.L[1], intLit64(int64(1000000+id))))))
+		}
+		vc.sc.Assume(mkImplies(reach, mkAnd(cs...)), "an error returned through an interface is not one of this package's unexported sentinel errors")
+		vc.note("errors returned through interfaces are assumed distinct from the package's unexported sentinel error values")
+	}
+	rs := sig.Results()
+	if rs.Len() == 1 {
+		one(res, rs.At(0).Type())
+		return
+	}
+	if tv, ok := res.(*TV); ok {
+		for i := 0; i < rs.Len() && i < len(tv.E); i++ {
+			one(tv.E[i], rs.At(i).Type())
+		}
+	}
 }
